@@ -258,6 +258,57 @@ Proof.
 Qed.
 Print Assumptions C19_aeif_value.
 
+(* ---- large grids.  Every descriptor is defined point by point, hence independent of how a large grid is walked:
+   cut into consecutive blocks of ANY length step > 0 the blocks cover the grid -- ceil(n/step) of them, the last one
+   holding the n mod step remaining points -- and the concatenated block results ARE the one-piece result (prune with the
+   block's index offset, the indicator field with the column offset into the nearest-atom rows). *)
+Theorem C19_blocks_cover (step : nat) (grid : list qv) : (0 < step)%nat ->
+  concat (chunks step grid) = grid /\
+  length (chunks step grid) = ((length grid + (step - 1)) / step)%nat /\
+  Forall (fun b => b <> [] /\ (length b <= step)%nat) (chunks step grid).
+Proof.
+  intros Hs. exact (conj (chunks_concat step grid Hs) (conj (chunks_count step grid Hs) (chunks_fuel_blocks step Hs _ grid))).
+Qed.
+Print Assumptions C19_blocks_cover.
+
+Theorem C19_blockwise (step : nat) (grid : list qv) : (0 < step)%nat ->
+  (forall ens radii w, aso_blocks ens radii w (chunks step grid) = aso ens radii w grid) /\
+  (forall atoms cut, nearest_blocks atoms cut (chunks step grid) = map (nearest atoms cut) grid) /\
+  (forall q, prune_blocks q 0 (chunks step grid) = prune_with q grid) /\
+  (forall ens radii values idx w, aif_blocks ens radii values idx w 0 (chunks step grid) = aif ens radii values idx w grid).
+Proof. exact (blockwise step grid). Qed.
+Print Assumptions C19_blockwise.
+
+(* taking only floor(n/step) blocks loses the partial last block: 7 points in blocks of 3 -> 2 blocks cover 6 points, and
+   the occupancy of the 7th point (inside the sphere) is never evaluated *)
+Example C19_floor_block_count_refuted :
+  let grid := [(0, 0, 9); (0, 0, 8); (0, 0, 7); (0, 0, 6); (0, 0, 5); (0, 0, 4); (0, 0, 0)] in
+  let ens := [[(0, 0, 0)]] in
+  length (chunks 3 grid) = 3%nat /\ (length grid / 3)%nat = 2%nat /\
+  length (aso_blocks ens [1] None (firstn (length grid / 3) (chunks 3 grid))) = 6%nat /\
+  map Qred (aso_blocks ens [1] None (chunks 3 grid)) = [0; 0; 0; 0; 0; 0; 1] /\
+  map Qred (aso ens [1] None grid) = [0; 0; 0; 0; 0; 0; 1].
+Proof. vm_compute. repeat split; reflexivity. Qed.
+
+(* a sampled comparison of a large grid: the values at a selection of grid points = the descriptor of the selected points *)
+Theorem C19_sample (grid : list qv) (ks : list nat) : Forall (fun k => (k < length grid)%nat) ks ->
+  (forall ens radii w, map (fun k => nth k (aso ens radii w grid) 0) ks = aso ens radii w (map (fun k => nth k grid qvz) ks)) /\
+  (forall atoms cut, map (fun k => nth k (map (nearest atoms cut) grid) (-1)%Z) ks =
+                     map (nearest atoms cut) (map (fun k => nth k grid qvz) ks)).
+Proof. intros H. exact (conj (fun ens radii w => aso_sample ens radii w grid ks H) (fun atoms cut => nearest_sample atoms cut grid ks H)). Qed.
+
+(* point number n of rectangular_grid, computed from the three axes alone (what CGridAt evaluates for a grid too large
+   for a literal), and the number of points *)
+Theorem C19_grid_at (r1 r2 : qv) (pad s : Q) (g : list qv) (n : nat) :
+  rectangular_grid r1 r2 pad s = Some g -> (n < length g)%nat ->
+  grid_at r1 r2 pad s (Z.of_nat n) = Some (nth n g qvz) /\ grid_count r1 r2 pad s = Some (Z.of_nat (length g)).
+Proof. exact (grid_at_correct r1 r2 pad s g n). Qed.
+Print Assumptions C19_grid_at.
+
+(* a box grown around ONE point (both corners the same point c): floor(2*padding/spacing) + 1 samples per axis, whatever c *)
+Theorem C19_grid_point_box (c p s : Q) : axis_n (c - p) (c + p) s = (Qfloor (2 * p / s) + 1)%Z.
+Proof. exact (axis_n_point c p s). Qed.
+
 (* the hypotheses are satisfiable and the models compute: box [-1,1]x[0,1]x[0,0], padding 1/4, spacing 1/2 *)
 Example C19_grid_example :
   box_ok (-1, 0, 0) (1, 1, 0) (1#4) /\
